@@ -127,6 +127,13 @@ theorem join_spec (x y : Table) (lc rc : List KeySpec) (mode : Mode)
   · rw [keyedPairs_snd, ← keysOf_length hlk, ← keysOf_length hrk]
     exact joinPairs_perm lk rk
 
+/-- the result table is rectangular: every column has one cell per result row -/
+theorem join_rect (x y : Table) (cols : List String) (mode : Mode) (kp : List (Val × Nat × Nat)) :
+    ∀ c ∈ joinTableOf x y cols mode kp, c.2.length = kp.length := by
+  intro c hc
+  simp only [joinTableOf, List.mem_append, List.mem_map] at hc
+  rcases hc with ((⟨a, _, rfl⟩ | ⟨a, _, rfl⟩) | ⟨a, _, rfl⟩) | ⟨a, _, rfl⟩ <;> simp
+
 /-- omitted `lcols` / `rcols` mean the shared columns (in the left table's order) on both sides -/
 theorem join_default_cols (x y : Table) (mode : Mode) :
     join x y none none mode =
